@@ -5423,6 +5423,9 @@ class Arc(Curve):
 
         large_arc_flag = bool(large_arc_flag)
         sweep_flag = bool(sweep_flag)
+        # F.6.6.1: negative radii act as their absolute values.
+        rx = abs(rx)
+        ry = abs(ry)
         start = Point(start)
         self.start = start
         end = Point(end)
